@@ -633,8 +633,8 @@ func ruleRootLen(c *Ctx, r *Reporter) {
 
 func ruleLockSites(c *Ctx, r *Reporter) {
 	allow := map[string]map[string]bool{
-		nSmusLock:   {"statedb.(DB).WriteTxn": true},
-		nSmusUnlock: {"statedb.(writeTxnHandle).Commit": true, "statedb.(writeTxnHandle).Abort": true},
+		nSmusLock:                             {"statedb.(DB).WriteTxn": true},
+		nSmusUnlock:                           {"statedb.(writeTxnHandle).Commit": true, "statedb.(writeTxnHandle).Abort": true},
 		"iface:internal.SortableMutex.Lock":   {"internal.(SortableMutexes).Lock": true},
 		"iface:internal.SortableMutex.Unlock": {"internal.(SortableMutexes).Unlock": true},
 		"internal.(sortableMutex).Lock":       {},
